@@ -367,15 +367,15 @@ func logicalDump(ctx context.Context, x *Nd, raw corekv.TxnStore) string {
 }
 
 type faultRun struct {
-	nops    int
-	log     []opRec
-	err     error
-	res     string
-	before  map[string]string
-	after   map[string]string
-	dump    string
-	events  int
-	panicV  any
+	nops   int
+	log    []opRec
+	err    error
+	res    string
+	before map[string]string
+	after  map[string]string
+	dump   string
+	events int
+	panicV any
 }
 
 func runFault(ctx context.Context, sc scenario, seed int64, k int, keep bool) faultRun {
